@@ -834,8 +834,19 @@ class Interp:
         if w is not None:
             w(self, args, kwargs)
         c = CTX.contracts.get(key)
-        if c is not None and not getattr(CTX, "_in_target", None) == key:
+        if c is not None:
+            # the function under verification itself runs its body once; recursive calls of it (and
+            # every other function with a contract) are replaced by the contract
+            if getattr(CTX, "target_key", None) == key and getattr(CTX, "target_depth", 0) == 0:
+                CTX.target_depth = 1
+                try:
+                    return self._run_function(f, key, args, kwargs)
+                finally:
+                    CTX.target_depth = 0
             return c(self, list(args), dict(kwargs))
+        return self._run_function(f, key, args, kwargs)
+
+    def _run_function(self, f, key, args, kwargs):
         node = f.node
         if key not in self.functions_seen and not isinstance(node, ast.Lambda):
             self.functions_seen[key] = f.module.source_hash(node)
